@@ -144,8 +144,11 @@ def load_theory_cache(filename, username="master"):
     cache = theory_cache[username][filename]
     timestamp = os.path.getmtime(user_file(filename, username))
 
-    if 'timestamp' in cache and timestamp == cache['timestamp']:
-        # No need to update cache
+    if 'timestamp' in cache and timestamp == cache['timestamp'] and \
+       all(os.path.getmtime(user_file(prev_name, username)) == prev_timestamp
+           for prev_name, prev_timestamp in cache['depends']):
+        # No need to update cache: neither the file nor any of the theories
+        # it was parsed in has changed.
         return cache
 
     # Load all required macros and methods for this file.
@@ -166,8 +169,10 @@ def load_theory_cache(filename, username="master"):
     depend_list = get_import_order(cache['imports'], username)
 
     with theory.fresh_theory():
+        depends = []
         for prev_name in depend_list:
             prev_cache = load_theory_cache(prev_name, username)
+            depends.append((prev_name, prev_cache['timestamp']))
             for item in prev_cache['content']:
                 if item.error is None:
                     theory.thy.unchecked_extend(item.get_extension())
@@ -191,6 +196,7 @@ def load_theory_cache(filename, username="master"):
     # Record the result only after everything is parsed: an exception above
     # must not leave a partial content marked as up to date.
     cache['content'] = content
+    cache['depends'] = depends
     cache['timestamp'] = timestamp
 
     return cache
